@@ -431,10 +431,15 @@ func C07(c *core.Ctx) {
 			eff = append(eff, ci)
 			_, a := core.CallArgs(ci.Common())
 			pkt := ssa.Value(pid.Params[1])
+			restore := core.WithRoot(pid)
 			okArgs := isFieldLoad(a[1], pkt, "Raw")
-			if root, path := core.FieldPath(a[0]); !(root == pkt && strings.Join(path, ".") == "L3.Data") {
-				okArgs = false
+			if root, path := core.FieldPath(a[0]); !(core.Same(root, pkt) && strings.Join(path, ".") == "L3.Data") {
+				// the decoded Data may also be handed on as a value loaded from packet.L3.Data
+				if rr, pp := core.FieldPath(core.Resolve(a[0])); !(core.Same(rr, pkt) && strings.Join(pp, ".") == "L3.Data") {
+					okArgs = false
+				}
 			}
+			restore()
 			c.Decide(okArgs, "R7.2", "insert-arriving-data", c.Pos(ci), "InsertData(packet.L3.Data, packet.Raw)", "the cache is given something other than the arriving Data and its wire")
 		}
 		c.Floor("R7.5", "InsertData call sites", len(eff), 1)
